@@ -349,12 +349,19 @@ func (p *player) since(from int) []evt {
 	return append([]evt{}, p.log[from:]...)
 }
 
+// mkHandler: handler number h logs `handler <value>` (h = 0) or `handler <value>@h`.
+func (p *player) mkHandler(h int) func(any) {
+	suffix := ""
+	if h != 0 {
+		suffix = "@" + strconv.Itoa(h)
+	}
+	return func(v any) { p.emit("handler", tokOf(v)+suffix) }
+}
+
 func newPlayer(limit int) *player {
 	p := &player{holding: map[int]bool{}}
 	p.cond = sync.NewCond(&p.mu)
-	p.l = goz.NewLimiter(limit).SetPanicHandler(func(v any) {
-		p.emit("handler", tokOf(v))
-	})
+	p.l = goz.NewLimiter(limit).SetPanicHandler(p.mkHandler(0))
 	p.subQ = make(chan *task, 1024)
 	go func() {
 		for t := range p.subQ {
@@ -652,6 +659,19 @@ func (p *player) op(t []string) string {
 			}
 		}
 		return render(ev, "waiting")
+	case "sethandler":
+		// SetPanicHandler between uses (a plain field store: only while the submitting
+		// goroutine is idle, otherwise the real code has a data race). Functions already
+		// submitted keep the handler that was configured when they were submitted.
+		if len(t) != 2 || len(p.pending) > 0 {
+			return "bad-op"
+		}
+		h, err := strconv.Atoi(t[1])
+		if err != nil || h < 0 || strconv.Itoa(h) != t[1] {
+			return "bad-op"
+		}
+		p.l.SetPanicHandler(p.mkHandler(h))
+		return "ok"
 	case "waitt":
 		// Wait(d), d > 0: returns when idle or when d has expired; must leave the Limiter
 		// as it was. The answer carries no timing; what the call did to the slots shows in
@@ -780,7 +800,9 @@ func check(c core.Case, out []string) *core.Failure {
 	if lastNoHandler != "" {
 		return &core.Failure{Key: "handler", Desc: lastNoHandler}
 	}
+	curHandler := 0
 	type tinfo struct {
+		hid               int
 		panicV            *string
 		started, finished int
 		handled           int
@@ -792,12 +814,16 @@ func check(c core.Case, out []string) *core.Failure {
 		t := core.Toks(c.Lines[i])
 		switch t[0] {
 		case "go":
-			ti := &tinfo{}
+			ti := &tinfo{hid: curHandler}
 			if len(t) == 4 {
 				v := t[3]
 				ti.panicV = &v
 			}
 			tasks = append(tasks, ti)
+		case "sethandler":
+			if out[i] == "ok" {
+				curHandler, _ = strconv.Atoi(t[1])
+			}
 		case "wait":
 			var ids []int
 			for id, ti := range tasks {
@@ -839,14 +865,14 @@ func check(c core.Case, out []string) *core.Failure {
 			case "handler":
 				ok := false
 				for _, ti := range tasks {
-					if ti.panicV != nil && ti.finished > 0 && ti.handled == 0 && *ti.panicV == f[1] {
+					if ti.panicV != nil && ti.finished > 0 && ti.handled == 0 && expectHandled(*ti.panicV, ti.hid) == f[1] {
 						ti.handled++
 						ok = true
 						break
 					}
 				}
 				if !ok {
-					return &core.Failure{Key: "handler", Desc: fmt.Sprintf("op %d %q: the handler received %q, which is not the value of a task that panicked and was not yet handled", i, c.Lines[i], f[1])}
+					return &core.Failure{Key: "handler", Desc: fmt.Sprintf("op %d %q: the handler event %q is not <value>[@<handler id>] of a task that panicked, was not yet handled and was submitted while that handler was the configured one", i, c.Lines[i], f[1])}
 				}
 			case "waitret":
 				if len(submittedBeforeWait) == 0 {
@@ -879,6 +905,15 @@ func check(c core.Case, out []string) *core.Failure {
 	return nil
 }
 
+// expectHandled: the event a panic value must produce given the handler that was
+// configured when the function was submitted.
+func expectHandled(tok string, hid int) string {
+	if hid == 0 {
+		return tok
+	}
+	return tok + "@" + strconv.Itoa(hid)
+}
+
 func keysOf(m map[int]bool) []int {
 	var ks []int
 	for k := range m {
@@ -901,6 +936,10 @@ func corpus() []core.Case {
 		{Lines: []string{"@ C19 lim 2", "go 0 ok", "go 1 ok", "waitt 2", "go 2 ok", "k", "waitt 1", "waitt 3", "go 3 ok", "release 0", "k", "release 1", "release 2", "release 3", "wait", "k", "go 4 ok", "waitt 2", "release 4", "waitt 2", "k"}},
 		{Lines: []string{"@ C19 lim 1", "waitt 1", "go 0 panic 4", "release 0", "waitt 2", "go 1 ok", "go 2 ok", "release 1", "release 2", "wait", "waitt 1", "k"}},
 		{Lines: []string{"@ C19 lim 0", "go 0 ok", "go 1 ok", "waitt 1", "go 2 ok", "waitt 1", "go 3 ok", "go 4 ok", "k", "release 2", "release 0", "k", "release 1", "release 3", "release 4", "wait", "k"}},
+		// handler replaced after the limiter already ran something, between rounds and while
+		// functions are inside: each value goes to the handler configured at ITS submission
+		{Lines: []string{"@ C19 lim 2", "go 0 ok", "release 0", "wait", "sethandler 1", "go 1 panic 5", "release 1", "wait", "go 2 panic 6", "sethandler 2", "go 3 panic err:7", "release 3", "release 2", "sethandler 0", "go 4 panic nil", "sethandler 3", "release 4", "go 5 panic tnp", "go 6 panic 8", "go 7 panic 9", "release 5", "release 6", "release 7", "wait", "k"}},
+		{Lines: []string{"@ C19 lim 1", "sethandler 2", "go 0 panic 1", "release 0", "sethandler 2", "go 1 panic 2", "sethandler 1", "release 1", "go 2 panic 3", "go 3 panic 4", "release 2", "release 3", "wait", "k"}},
 		// Limiter reuse over several Go/Wait rounds: every Wait must wait for ITS round
 		// (an idle signal cached from an earlier round must not satisfy a later Wait)
 		{Lines: []string{"@ C19 lim 1", "go 0 ok", "release 0", "wait", "go 1 ok", "wait", "release 1", "wait", "go 2 panic nil", "wait", "wait", "release 2", "go 3 ok", "go 4 ok", "release 3", "wait", "release 4", "k"}},
@@ -929,6 +968,11 @@ func gen(r *core.Rand, tier string) core.Case {
 		canGo := waiting == 0 && len(pending) < 3
 		canRel := len(holding) > 0
 		canWait := len(pending) == 0 && waiting < 2
+		if r.Chance(6) && len(pending) == 0 {
+			// replace the handler between / during rounds (class: order of configuration vs use)
+			lines = append(lines, fmt.Sprintf("sethandler %d", r.Range(0, 3)))
+			continue
+		}
 		if r.Chance(7) && (n >= 2 || len(holding) == 0) {
 			// Wait(d) that expires while functions are blocked (or returns at once when
 			// idle); the ops after it check that the slots are as before.
@@ -1026,6 +1070,8 @@ func classify(c core.Case, out []string) []string {
 			ls = append(ls, "release-ok")
 		case op == "waitt":
 			ls = append(ls, "timed-wait")
+		case op == "sethandler":
+			ls = append(ls, "set-handler")
 		case op == "wait" && o == "waiting":
 			ls = append(ls, "wait-blocks")
 		case op == "wait":
